@@ -184,6 +184,7 @@ type twin struct {
 	res            string
 	failed         bool
 	running, fresh []string
+	preFresh       []string
 	final          []string
 	extra          string
 	memUnstable    bool
@@ -291,6 +292,15 @@ func computeTwin(base, kind string, seed int64, desc string) *twin {
 	return t
 }
 
+func setFailAfter(w world, b bool) {
+	switch x := w.(type) {
+	case *txWorld:
+		x.failAfter = b
+	case *addrWorld:
+		x.failAfter = b
+	}
+}
+
 func setAfterOp(w world, f func()) {
 	switch x := w.(type) {
 	case *txWorld:
@@ -340,14 +350,18 @@ func genState(sp stateSpec, tier string) core.Case {
 		for k := 1; k <= t.nWrites+1; k++ {
 			c.Ops = append(c.Ops, fmt.Sprintf("fault kind=%s op=%s k=%d n=%d prog=%s", sp.kind, d, k, t.nWrites, t.shape))
 		}
+		if !t.failed {
+			// one more position: the operation succeeds and a LATER write of the same transaction fails
+			c.Ops = append(c.Ops, fmt.Sprintf("fault kind=%s op=%s k=%d n=%d tail=1 prog=%s", sp.kind, d, t.nWrites+1, t.nWrites, t.shape))
+		}
 	}
 	return c
 }
 
 func (engine) Generate(rng *rand.Rand, tier string) []core.Case {
-	nStates := map[string]int{"tx": 14, "addr": 12}
+	nStates := map[string]int{"tx": 12, "addr": 6}
 	if tier == "thorough" {
-		nStates = map[string]int{"tx": 30, "addr": 24}
+		nStates = map[string]int{"tx": 30, "addr": 16}
 	}
 	if v := os.Getenv("VX_C10_STATES"); v != "" {
 		if n, err := strconv.Atoi(v); err == nil {
@@ -417,6 +431,8 @@ func (r *runner) Close() {
 		r.base = ""
 	}
 }
+
+var keyRe = regexp.MustCompile(`^C10 key=(\S+):`)
 
 var parenRe = regexp.MustCompile(`\([^)]*\)`)
 
@@ -533,12 +549,19 @@ func (r *runner) Exec(op string) (string, string) {
 		if r.base == "" || a["kind"] != r.kind {
 			return "no-state", ""
 		}
-		return r.fault(desc, k, n, prog)
+		tail := false
+		if tv, ok := a["tail"]; ok {
+			if tv != "1" || k != n+1 {
+				return "bad-op", ""
+			}
+			tail = true
+		}
+		return r.fault(desc, k, n, prog, tail)
 	}
 	return "bad-op", ""
 }
 
-func (r *runner) fault(desc string, k, n int, prog string) (string, string) {
+func (r *runner) fault(desc string, k, n int, prog string, tail bool) (string, string) {
 	opName := strings.SplitN(desc, "/", 2)[0]
 	t := r.twins[desc]
 	if t == nil {
@@ -560,14 +583,25 @@ func (r *runner) fault(desc string, k, n int, prog string) (string, string) {
 	}
 	defer s.close()
 	preRun := s.w.observeRunning()
-	preFresh := s.w.observeFresh()
+	if t.preFresh == nil {
+		t.preFresh = s.w.observeFresh() // a function of the base image and the candidate set only: computed once per op
+	}
+	preFresh := t.preFresh
 	fp0 := s.fp()
 	dump0 := s.w.dump()
 
 	ctl := s.fdb.Ctl
-	ctl.Reset(k)
+	suffix := ""
+	if tail {
+		suffix = "@later-write"
+		ctl.Reset(0)
+		setFailAfter(s.w, true)
+	} else {
+		ctl.Reset(k)
+	}
 	res, rerr := s.w.runTarget(desc)
-	fired := ctl.Fired
+	setFailAfter(s.w, false)
+	fired := ctl.Fired || tail
 	failedSite := "?"
 	for _, ev := range ctl.Events {
 		if ev.Failed && len(ev.Frames) > 0 {
@@ -619,17 +653,21 @@ func (r *runner) fault(desc string, k, n int, prog string) (string, string) {
 		mem = "changed"
 	}
 	postRun := s.w.observeRunning()
-	postFresh := s.w.observeFresh()
+	postFresh := preFresh
+	if disk != "same" {
+		// a reopened manager is a function of the database content alone: only re-queried when that changed
+		postFresh = s.w.observeFresh()
+	}
 	if cl, ex := diffObs(preRun, postRun); len(cl) > 0 {
 		for _, c := range cl {
-			viol = append(viol, fmt.Sprintf("C10 key=%s.state-changed-after-rollback.%s: %s k=%d/%d running manager answers differently after the rolled-back failure (before vs after) %s",
-				opName, c, desc, k, n, clean(ex[c])))
+			viol = append(viol, fmt.Sprintf("C10 key=%s.state-changed-after-rollback.%s%s: %s k=%d/%d running manager answers differently after the rolled-back failure (before vs after) %s",
+				opName, c, suffix, desc, k, n, clean(ex[c])))
 		}
 	}
 	if cl, ex := diffObs(preFresh, postFresh); len(cl) > 0 {
 		for _, c := range cl {
-			viol = append(viol, fmt.Sprintf("C10 key=%s.state-changed-after-rollback.reopened-%s: %s k=%d/%d reopened manager answers differently after the rolled-back failure %s",
-				opName, c, desc, k, n, clean(ex[c])))
+			viol = append(viol, fmt.Sprintf("C10 key=%s.state-changed-after-rollback.reopened-%s%s: %s k=%d/%d reopened manager answers differently after the rolled-back failure %s",
+				opName, c, suffix, desc, k, n, clean(ex[c])))
 		}
 	}
 	// retry without fault, compare with the fault-free twin
@@ -659,10 +697,25 @@ func (r *runner) fault(desc string, k, n int, prog string) (string, string) {
 	}
 	for _, y := range whys {
 		retry = "differs"
-		viol = append(viol, fmt.Sprintf("C10 key=%s.retry-differs.%s: %s k=%d/%d %s", opName, y[0], desc, k, n, clean(y[1])))
+		viol = append(viol, fmt.Sprintf("C10 key=%s.retry-differs.%s%s: %s k=%d/%d %s", opName, y[0], suffix, desc, k, n, clean(y[1])))
 	}
 	if mem == "changed" {
 		retry = "*"
+	}
+	if tail && len(viol) > 0 {
+		// one coarse key per operation for the "later write of the same transaction fails" position: the
+		// manager updated its memory inside the transaction and is now ahead of the rolled-back disk
+		var keys []string
+		for _, v := range viol {
+			if m := keyRe.FindStringSubmatch(v); m != nil {
+				keys = append(keys, strings.TrimSuffix(strings.TrimPrefix(m[1], opName+"."), "@later-write"))
+			}
+		}
+		first := viol[0]
+		if i := strings.Index(first, ": "); i >= 0 {
+			first = first[i+2:]
+		}
+		viol = []string{fmt.Sprintf("C10 key=%s.memory-ahead-after-later-write-failure: differing [%s] e.g. %s", opName, strings.Join(keys, " "), first)}
 	}
 	return fmt.Sprintf("res=err disk=%s mem=%s retry=%s", disk, mem, retry), strings.Join(viol, "; ")
 }
